@@ -189,6 +189,23 @@ def run(ctx):
             # does the function hand the mismatch back to its caller instead (a second return value)?
             rets = [r for r in walk_no_nested(ev_.fi.node) if isinstance(r, ast.Return) and isinstance(r.value, ast.Tuple)]
             st_ = "ok" if top or raises else ("unknown" if sets or rets else "violation")
+            # the flag is set on SOME branches of the handler only, and another branch pads the hyperedge (stores into the chosen-nodes
+            # table) without it: that path hands back a full-size hyperedge built from exhausted nodes and reports nothing
+            if st_ == "unknown" and sets and not rets:
+                def chain(n_):
+                    out, cur = [], n_
+                    while cur is not h_ and id(cur) in ev_.parent:
+                        par = ev_.parent[id(cur)]
+                        if isinstance(par, ast.If):
+                            out.append((id(par), "body" if any(cur is x for x in par.body) else "orelse"))
+                        cur = par
+                    return list(reversed(out))
+
+                pads = [x for x in ast.walk(h_) if isinstance(x, ast.Assign) and any(isinstance(t, ast.Subscript) and isinstance(t.value, ast.Name) and "chosen" in t.value.id for t in x.targets)]
+                set_chains = [chain(x) for x in sets]
+                uncovered = [p_ for p_ in pads if not any(chain(p_)[: len(sc)] == sc for sc in set_chains)]
+                if pads and uncovered:
+                    st_ = "violation"
             res.add("Y-MATCH", ev_.fi.short, "except StopIteration: self.matching_sequences = False", "records-mismatch", st_, "" if st_ == "ok" else "the construction runs out of nodes with residual degree without recording that the sequences do not match: a hyperedge filled up with zero-degree nodes has full size, so the caller cannot notice, and sample() reports an unrealisable conditioning as matching", loc(ev_.fi, h_))
     # ---- G-DIMSEQ: the size sequence is respected even when the sequences do not match: a hyperedge whose size is DRAWN (not
     #      taken from the size sequence) is only added when no size sequence is forced
